@@ -1,25 +1,18 @@
 (* Compaction.v — executable model of pkg/compaction (tiered_strategy.go, base_strategy.go,
    executor.go, tombstone.go, coordinator.go) on top of the storage-manager model Engine.v.
 
-   This is the REPAIRED code (/repo commits deebfc9 tables by age, cf3362d newest-first merge,
-   ca9115b DropTombstones, 390f6e5 range closure, f30cabd the empty key is a key); the behaviour before these fixes, with the
-   witnesses that refuted the property, is kept in CompactionBefore.v / CompactionBeforeProofs.v.
-
    What is modelled, as coded:
    * the SST directory (file name = level_number_timestamp, directory order = name order),
      separate from the storage manager's reader list (Engine.ssts), which is only refreshed
      by a reopen;
-   * LoadSSTables: files per level oldest first (by creation timestamp; file numbers restart at
-     every open and say nothing about age); first/last key per file;
-   * SelectCompaction: L0 rule (len(L0) >= MaxMemTables, at least 2 files, the OLDEST
+   * LoadSSTables: files per level in (number, timestamp) order; first/last key per file;
+   * SelectCompaction: L0 rule (len(L0) >= MaxMemTables, at least 2 files, the first
      MaxMemTables files, plus the L1 files overlapping their key range), promotion (next
-     level empty), size ratio (the oldest file + overlapping files of the next level), and
-     CompactRange (every file of every level overlapping the range, the range widened to the
-     hull of the selected files until nothing more is added; target = deepest level + 1);
-   * CompactFiles: hierarchical merge in which an EARLIER source wins, sources listed NEWEST
-     first: level 0..target and inside a level the strategy's list backwards; duplicate
-     skipping; a deletion marker is kept unless the task's DropTombstones flag is set (every
-     table on the target level or deeper is an input) and the tracker does not want it; outputs written with
+     level empty), size ratio (one file + overlapping files of the next level), and
+     CompactRange (every overlapping file of every level, target = deepest level + 1);
+   * CompactFiles: hierarchical merge in which an EARLIER source wins, sources listed level
+     0..target and inside a level in strategy order; duplicate skipping; the tombstone filter
+     (the tracker decides alone whenever it exists: it always exists); outputs written with
      sequence number 0, split after SSTableMaxSize ENTRIES, named target_<1,2,..>_<now>;
    * the swap: inputs removed from the directory, outputs added;
    * the tombstone tracker: keys deleted through EngineFacade.Delete / ApplyBatch in this
@@ -115,38 +108,36 @@ Definition last_key (f : dfile) : bytes :=
   match rev (d_entries f) with [] => [] | e :: _ => sk e end.
 
 Definition blt (a b : bytes) : bool := match bcmp a b with Lt => true | _ => false end.
-(* a table without entries has nil first/last keys: "no keys" *)
-Definition nokeys (f : dfile) : bool := match d_entries f with [] => true | _ => false end.
+Definition isnil (a : bytes) : bool := match a with [] => true | _ => false end.
 
-(* SSTableInfo.Overlaps on two key ranges (n1, n2: the side has no keys); the empty key is a key *)
-Definition overlaps (n1 n2 : bool) (f1 l1 f2 l2 : bytes) : bool :=
-  if n1 || n2 then false else negb (blt l1 f2 || blt l2 f1).
+(* SSTableInfo.Overlaps on two key ranges *)
+Definition overlaps (f1 l1 f2 l2 : bytes) : bool :=
+  if isnil f1 || isnil l1 || isnil f2 || isnil l2 then false
+  else negb (blt l1 f2 || blt l2 f1).
 
-(* directory order = file name order = (level, number, timestamp) *)
+(* the order of the pinned code: file name order = (level, number, timestamp) *)
 Definition name_le (a b : sst) : bool :=
   if s_level a <? s_level b then true else if s_level b <? s_level a then false else
   if s_num a <? s_num b then true else if s_num b <? s_num a then false else
   s_ts a <=? s_ts b.
+Fixpoint name_insert (x : sst) (l : list sst) : list sst :=
+  match l with
+  | [] => [x]
+  | y :: r => if name_le x y then x :: l else y :: name_insert x r
+  end.
+Definition name_sort (l : list sst) : list sst := fold_right name_insert [] l.
 Definition dfile_le (a b : dfile) : bool := name_le (d_sst a) (d_sst b).
 Fixpoint dinsert (x : dfile) (l : list dfile) : list dfile :=
   match l with
   | [] => [x]
   | y :: r => if dfile_le x y then x :: l else y :: dinsert x r
   end.
+(* directory order = file name order = (level, number, timestamp) *)
 Definition dsort (l : list dfile) : list dfile := fold_right dinsert [] l.
 
-(* files of one level, oldest first: sort.SliceStable by timestamp over the directory order *)
-Definition ts_le (a b : dfile) : bool := s_ts (d_sst a) <=? s_ts (d_sst b).
-Fixpoint tinsert (x : dfile) (l : list dfile) : list dfile :=
-  match l with
-  | [] => [x]
-  | y :: r => if ts_le y x then y :: tinsert x r else x :: l
-  end.
-(* stable: an element goes behind the elements that are <= it and were there before *)
-Definition tsort (l : list dfile) : list dfile := fold_left (fun acc x => tinsert x acc) l [].
-
+(* s.levels[L]: directory order, then sorted by number: (number, timestamp) order *)
 Definition level_files (L : N) (dir : list dfile) : list dfile :=
-  tsort (filter (fun f => d_level f =? L) (dsort dir)).
+  filter (fun f => d_level f =? L) (dsort dir).
 
 Definition level_size (L : N) (dir : list dfile) : N :=
   fold_left (fun a f => a + d_size f) (level_files L dir) 0.
@@ -156,60 +147,38 @@ Definition max_level (dir : list dfile) : N :=
 
 (* ---------- tasks ---------- *)
 
-(* InputFiles (level -> files, each list oldest first), TargetLevel, DropTombstones *)
-Record task := mkT { t_groups : list (N * list dfile); t_target : N; t_drop : bool }.
-Definition t_inputs (t : task) : list dfile := concat (map snd (t_groups t)).
+(* inputs in the order CompactFiles lists the sources: level 0..target, strategy order inside *)
+Record task := mkT { t_inputs : list dfile; t_target : N }.
 
-Definition same_file (a b : dfile) : bool :=
-  (s_level (d_sst a) =? s_level (d_sst b)) && (s_num (d_sst a) =? s_num (d_sst b))
-  && (s_ts (d_sst a) =? s_ts (d_sst b)).
-
-(* coversDeeperLevels: every table on the target level or deeper is an input *)
-Definition covers_deeper (dir ins : list dfile) (target : N) : bool :=
-  forallb (fun f => (d_level f <? target) || existsb (same_file f) ins) dir.
-
-Definition mk_task (dir : list dfile) (groups : list (N * list dfile)) (target : N) : task :=
-  mkT groups target (covers_deeper dir (concat (map snd groups)) target).
-
-(* hull of a key range and some files *)
-Definition hull (lo hi : bytes) (ins : list dfile) : bytes * bytes :=
+(* selectL0Compaction: key range of the selected files, with the code's "len == 0" tests *)
+Definition l0_range (sel : list dfile) : bytes * bytes :=
   fold_left (fun mm f =>
                let '(mn, mx) := mm in
-               (if blt (first_key f) mn then first_key f else mn,
-                if blt mx (last_key f) then last_key f else mx))
-            ins (lo, hi).
-
-(* selectL0Compaction: key range of the selected files (minKey/maxKey start as nil) *)
-Definition l0_range (sel : list dfile) : option (bytes * bytes) :=
-  match sel with
-  | [] => None
-  | f0 :: r => Some (hull (first_key f0) (last_key f0) r)
-  end.
+               (if isnil mn || blt (first_key f) mn then first_key f else mn,
+                if isnil mx || blt mx (last_key f) then last_key f else mx))
+            sel ([], []).
 
 Definition select_l0 (maxmem : N) (dir : list dfile) : option task :=
   let l0 := level_files 0 dir in
   if N.of_nat (length l0) <? 2 then None else
   let sel := firstn (N.to_nat maxmem) l0 in
-  let l1 := match l0_range sel with
-            | None => []
-            | Some (mn, mx) =>
-              filter (fun f => overlaps (nokeys f) false (first_key f) (last_key f) mn mx) (level_files 1 dir)
-            end in
-  Some (mk_task dir [(0, sel); (1, l1)] 1).
+  let '(mn, mx) := l0_range sel in
+  let l1 := filter (fun f => overlaps (first_key f) (last_key f) mn mx) (level_files 1 dir) in
+  Some (mkT (sel ++ l1) 1).
 
 Definition select_promotion (L : N) (dir : list dfile) : option task :=
   match level_files L dir with
   | [] => None
-  | f :: _ => Some (mk_task dir [(L, [f])] (L + 1))
+  | f :: _ => Some (mkT [f] (L + 1))
   end.
 
 Definition select_overlapping (L : N) (dir : list dfile) : option task :=
   match level_files L dir with
   | [] => None
   | f :: _ =>
-    let nxt := filter (fun g => overlaps (nokeys f) (nokeys g) (first_key f) (last_key f) (first_key g) (last_key g))
+    let nxt := filter (fun g => overlaps (first_key f) (last_key f) (first_key g) (last_key g))
                       (level_files (L + 1) dir) in
-    Some (mk_task dir [(L, [f]); (L + 1, nxt)] (L + 1))
+    Some (mkT (f :: nxt) (L + 1))
   end.
 
 Definition isnil_files (l : list dfile) : bool := match l with [] => true | _ => false end.
@@ -234,56 +203,38 @@ Definition select (maxmem : N) (cc : ccfg) (dir : list dfile) : option task :=
   then select_l0 maxmem dir
   else select_levels (N.to_nat (max_level dir)) 0 (cc_ratio cc) dir.
 
-(* CompactRange: the files of levels L.. that overlap [lo, hi], grouped by level *)
-Fixpoint range_groups (n : nat) (L : N) (lo hi : bytes) (dir : list dfile) : list (N * list dfile) :=
-  let here := filter (fun f => overlaps (nokeys f) false (first_key f) (last_key f) lo hi) (level_files L dir) in
-  let g := match here with [] => [] | _ => [(L, here)] end in
+(* CompactRange *)
+Fixpoint range_inputs (n : nat) (L : N) (lo hi : bytes) (dir : list dfile) : list dfile :=
+  let here := filter (fun f => overlaps (first_key f) (last_key f) lo hi) (level_files L dir) in
   match n with
-  | O => g
-  | S n' => g ++ range_groups n' (L + 1) lo hi dir
+  | O => here
+  | S n' => here ++ range_inputs n' (L + 1) lo hi dir
   end.
 
-(* the widening loop: stop when a round selects as many files as the round before *)
-Fixpoint range_closure (fuel : nat) (selected : nat) (lo hi : bytes) (dir : list dfile)
-  : option (list (N * list dfile)) :=
-  let groups := range_groups (N.to_nat (max_level dir)) 0 lo hi dir in
-  let ins := concat (map snd groups) in
-  if Nat.eqb (length ins) selected then Some groups
-  else match fuel with
-       | O => None   (* out of fuel: cannot happen, every further round adds a file *)
-       | S f => let '(lo', hi') := hull lo hi ins in range_closure f (length ins) lo' hi' dir
-       end.
-
 Definition select_range (lo hi : bytes) (dir : list dfile) : option task :=
-  match range_closure (S (length dir)) 0 lo hi dir with
-  | None => None
-  | Some groups =>
-    match concat (map snd groups) with
-    | [] => None
-    | _ => Some (mk_task dir groups (max_level dir + 1))
-    end
+  let ml := max_level dir in
+  match range_inputs (N.to_nat ml) 0 lo hi dir with
+  | [] => None
+  | ins => Some (mkT ins (ml + 1))
   end.
 
 (* ---------- executing a task on the directory ---------- *)
 
+Definition same_file (a b : dfile) : bool :=
+  (s_level (d_sst a) =? s_level (d_sst b)) && (s_num (d_sst a) =? s_num (d_sst b))
+  && (s_ts (d_sst a) =? s_ts (d_sst b)).
+
 Definition remove_files (ins dir : list dfile) : list dfile :=
   filter (fun f => negb (existsb (same_file f) ins)) dir.
 
-(* sources of CompactFiles, newest first: level 0..target (the groups are listed by ascending
-   level), inside a level the strategy's list backwards *)
+(* sources of CompactFiles: only levels 0..target take part in the merge *)
 Definition task_sources (t : task) : list (list sentry) :=
-  map d_entries
-      (concat (map (fun g => rev (snd g)) (filter (fun g => fst g <=? t_target t) (t_groups t)))).
+  map d_entries (filter (fun f => d_level f <=? t_target t) (t_inputs t)).
 
-(* the executor's decision on a deletion marker *)
-Definition task_keep (keep : bytes -> bool) (t : task) (k : bytes) : bool :=
-  negb (t_drop t) || keep k.
-
-(* observed file sizes; a table file is never empty (footer), so 0 and "missing" read as 1 *)
 Fixpoint nth_size (i : nat) (sizes : list N) : N :=
   match sizes, i with
-  | [], _ => 1
-  | x :: _, O => if x =? 0 then 1 else x
+  | [], _ => 0
+  | x :: _, O => x
   | _ :: r, S j => nth_size j r
   end.
 
@@ -298,8 +249,7 @@ Fixpoint name_outputs (target : N) (i : nat) (clock : N) (sizes : list N) (outs 
 
 Definition task_outputs (keep : bytes -> bool) (cc : ccfg) (clock : N) (sizes : list N) (t : task)
   : list dfile :=
-  name_outputs (t_target t) 0 clock sizes
-               (exec_outputs (task_keep keep t) (cc_sstmax cc) (task_sources t)).
+  name_outputs (t_target t) 0 clock sizes (exec_outputs keep (cc_sstmax cc) (task_sources t)).
 
 Definition apply_task (keep : bytes -> bool) (cc : ccfg) (clock : N) (sizes : list N) (t : task)
            (dir : list dfile) : list dfile :=
@@ -395,24 +345,22 @@ Definition crange (s : cst) (lo hi : bytes) (sizes : list N) : cst :=
   end.
 
 (* close + open; with retire = true the log files that are fully contained in SSTables are
-   removed first. Engine.reopen loads the tables of the directory (listed in name order) and
-   orders them by age: deeper levels first, inside a level by creation timestamp. *)
+   removed while the database is closed (what WAL retention does to flushed files) *)
 Definition creopen (s : cst) (retire : bool) : cst :=
   let e0 := eng s in
   let e1 := if retire then upd_wal e0 (wal_next e0) (skipn (retirable s) (wal_files e0)) else e0 in
-  let e2 := reopen (set_ssts e1 (map d_sst (dsort (disk s)))) in
-  mkC e2 (disk s) [] (cc s) (if retire then 0%nat else retirable s).
+  let e2 := reopen (set_ssts e1 (map d_sst (disk s))) in
+  mkC (set_ssts e2 (name_sort (map d_sst (disk s)))) (disk s) [] (cc s) (if retire then 0%nat else retirable s).
 
 Definition cget (s : cst) (k : bytes) : option bytes := get (eng s) k.
 
 (* what a database opened on the SST directory alone reads (no log, empty memtables) *)
 Definition ssts_read (tables : list sst) (k : bytes) : option bytes :=
-  match ssts_get k (rev (sst_sort tables)) with
+  match ssts_get k (rev (name_sort tables)) with
   | Some (Some v) => Some v
   | _ => None
   end.
-Definition disk_read (s : cst) (k : bytes) : option bytes :=
-  ssts_read (map d_sst (dsort (disk s))) k.
+Definition disk_read (s : cst) (k : bytes) : option bytes := ssts_read (map d_sst (disk s)) k.
 
 Inductive cop :=
 | CPut (k v : bytes) | CDel (k : bytes) | CBatch (ops : list bop) | CCommit (ops : list bop)
